@@ -624,39 +624,7 @@ def finding_key(c, impl_out, model_out):
             and all((a[1], a[2]) == (1, 1) for a in c['args']) and any(a[3][0] == 'z' for a in c['args']) \
             and impl_out is not None and impl_out.split('|')[0] == 'e:value':
         return 'sumproduct.single-cell.blank'
-    # a cell holding a numpy INTEGER (SUMPRODUCT over all-integer cells returns numpy.int64, which is not an `int`):
-    # every aggregate silently ignores that numeric cell.  Matches only when the whole output is exactly what the
-    # statement prescribes with those cells dropped, so any other deviation on such a case is still reported.
-    if impl_out is not None and (c['k'] == 'chain' and c['npint'] or c['k'] == 'rect' and c.get('np') == 'all'):
-        if c['k'] == 'chain':
-            dropped = _chain_queries(c, ['z' if i in c['npint'] else t for i, t in enumerate(c['cells'])])
-        else:
-            dropped = [(lab, op, [[a[0], a[1], a[2], ['z' if _integral(t) else t for t in a[3]]] for a in args])
-                       for lab, op, args in queries(c)]
-        toks = impl_out.split('|')
-        full = [_expect(op, args) for _, op, args in queries(c)]
-        if len(toks) == len(dropped) and full != [_expect(op, args) for _, op, args in dropped] and \
-                all(_close(t, _expect(op, args)) for t, (_, op, args) in zip(toks, dropped)):
-            return 'numpy-int.cell.ignored'
     return None
-
-
-def _expect(op, args):
-    """what the statement prescribes for one evaluation (exact)"""
-    if op == 'echo':
-        return args[0][1]
-    cells = [t for a in args for t in (a[3] if a[0] == 'a' else [a[1]])]
-    if isinstance(op, tuple):
-        return spec(next(f for f in FNS if SUBNUM[f] in (op[1], op[1] - 100)), cells)
-    if op == 'sumproduct':
-        total = Fraction(0)
-        for i in range(len(args[0][3])):
-            p = Fraction(1)
-            for a in args:
-                p *= _n0(a[3][i])
-            total += p
-        return core.enc(total)
-    return spec(op, cells)
 
 
 # ---------------------------------------------------------------------------------------------------------------
